@@ -71,6 +71,20 @@ def scriptnum(n):
     return bytes(out)
 
 
+def padded_scriptnum(n, form):
+    """the same number, not minimally encoded: "pad1"/"pad2" extend with zero bytes (the sign bit moves to the new
+    top byte), "to5" extends to five bytes"""
+    b = bytearray(scriptnum(n))
+    neg = bool(b) and bool(b[-1] & 0x80) and n < 0
+    if neg:
+        b[-1] &= 0x7f
+    extra = {"pad1": 1, "pad2": 2}.get(form, max(1, 5 - len(b)))
+    b += b"\0" * extra
+    if neg:
+        b[-1] |= 0x80
+    return bytes(b)
+
+
 def key_blob(k, form):
     x, y = RING_Q[k % len(RING_Q)]
     xb, yb = x.to_bytes(32, "big"), y.to_bytes(32, "big")
@@ -232,7 +246,12 @@ def resolve_ctx(tokens, case):
     out = []
     for t in tokens:
         if t[0] == "ctxnum":
-            out.append(["n", ctx_value(case, t[1], t[2]), t[3]])
+            v = ctx_value(case, t[1], t[2])
+            form = t[4] if len(t) > 4 else "min"
+            if form == "min":
+                out.append(["n", v, t[3]])
+            else:
+                out.append(["d", padded_scriptnum(v, form).hex(), t[3]])
         elif t[0] == "rep":
             out.append(["rep", resolve_ctx(t[1], case), t[2]])
         else:
